@@ -25,6 +25,8 @@ pub fn run_check(prop: &str, tier: Tier, seed: u64) -> i32 {
         "C13" => c13(tier, seed),
         "C14" => c14(tier, seed),
         "C15" => c15(tier, seed),
+        "C03" => c03(tier, seed),
+        "C05" => c05(tier, seed),
         other => harness_error(&format!("no check registered for {other}")),
     }
 }
@@ -35,6 +37,8 @@ pub fn replay(doc: &J) -> i32 {
         "C06" | "C16" => crate::driver::replay::<ChainScenario>(doc),
         "C10" | "C11" | "C12" | "C13" => crate::driver::replay::<crate::props_sched::SchedScenario>(doc),
         "C14" | "C15" => crate::driver::replay::<StoreScenario>(doc),
+        "C03" => crate::driver::replay::<TrajScenario>(doc),
+        "C05" => crate::driver::replay::<FaultScenario>(doc),
         other => harness_error(&format!("replay: unknown property {other}")),
     }
 }
@@ -405,5 +409,99 @@ fn c15(tier: Tier, seed: u64) -> i32 {
     ctx.finish("fault_enumeration", components_engine_c(), vec![
         "crash = the process stops right after flush() returned; what survives is the store content at that moment (snapshot)".into(),
         "async writer and filesystem store are not covered yet".into(),
+    ], json!({}))
+}
+
+// ------------------------------------------------------------------------------------------------
+// C03 / C05 (engine A with evaluation records and the SimMath seam)
+
+use crate::props_fault::{FaultScenario, TrajScenario};
+
+pub fn components_engine_a_math() -> J {
+    json!({
+        "real_code": ["everything under /repo/src reached through Settings::new_chain / Chain::{set_position, expanded_draw}; every Math method is executed by the real CpuMath"],
+        "stubs": ["density (CpuLogpFunc) with fault injection by evaluation index and a record of every evaluation (position, value, gradient)", "flow callbacks (Flow presets)"],
+        "seams": ["SimMath: delegating Math implementation that records momentum draws, ESH updates and normalisations stamped with the evaluation counter", "chain RNG from the run seed", "density callback"],
+    })
+}
+
+fn c03(tier: Tier, seed: u64) -> i32 {
+    let mut ctx = Ctx::new("C03", tier, seed);
+    let n = ctx.n(3000, 300_000);
+    let opts = SwarmOpts { presets: crate::swarm::NUTS_PRESETS.to_vec(), allow_tune0: true, allow_dim0: true, max_tune: 40, max_draws: 10, max_dim: 8, ..Default::default() };
+    ctx.run_batch("swarm", "NUTS presets x randomised maxdepth/mindepth/max_energy_error/target_integration_time/kinetic energy/extra_doublings x targets (incl. funnel, flat coordinate, dimension 0 and 1) x histories with natural and injected divergences; every draw is checked against the record of density evaluations of its trajectory (membership, logp/gradient of the returned state, index 0 iff not moved, depth/steps/index bounds, at least one step, maxdepth flag); non-trivial = at least one draw moved", n, |rs, _| {
+        let mut cfg = gen_chain_cfg(rs, &opts);
+        let mut r = Prng::sub(rs, "tweak");
+        // extra_doublings is outside C03's quantifier (depth may then exceed maxdepth by design)
+        match &mut cfg.preset {
+            crate::chain::Preset::DiagNuts(s) => s.extra_doublings = 0,
+            crate::chain::Preset::LowRankNuts(s) => s.extra_doublings = 0,
+            crate::chain::Preset::FlowNuts(s) => s.extra_doublings = 0,
+            _ => {}
+        }
+        if r.chance(0.4) {
+            for _ in 0..r.range(1, 4) {
+                let kind = *r.pick(&[crate::density::FaultKind::RecoverableErr, crate::density::FaultKind::NanLogp, crate::density::FaultKind::EnergyJump, crate::density::FaultKind::InfGrad, crate::density::FaultKind::PosInfLogp]);
+                cfg.faults.push(crate::density::Fault { at: r.below(300), kind });
+            }
+        }
+        TrajScenario { cfg }
+    });
+    let n2 = ctx.n(2000, 200_000);
+    let opts2 = SwarmOpts { presets: vec![crate::swarm::PresetKind::DiagNuts], allow_tune0: false, max_tune: 40, max_draws: 8, max_dim: 6, ..Default::default() };
+    ctx.run_batch("next_trajectory_start", "Diag NUTS, Euclidean, store_mass_matrix on, targets including scales 1e-12..1e12: the first evaluated position of every trajectory must be the leapfrog image of the previous draw under the reported scales, the step size in force and the momentum seen at the SimMath seam ('the next trajectory starts from it')", n2, |rs, _| {
+        let mut cfg = gen_chain_cfg(rs, &opts2);
+        let mut r = Prng::sub(rs, "tweak");
+        if let crate::chain::Preset::DiagNuts(s) = &mut cfg.preset {
+            s.trajectory_kind = nuts_rs::KineticEnergyKind::Euclidean;
+            s.extra_doublings = 0;
+            s.adapt_options.mass_matrix_options.store_mass_matrix = true;
+            s.target_integration_time = None;
+        }
+        if r.chance(0.5) {
+            // badly scaled diagonal normal (the clamp range of the estimators is 1e-20..1e20 in variance)
+            let d = cfg.target.dim().max(1);
+            let sig: Vec<f64> = (0..d).map(|_| *r.pick(&[1.0, 1e-3, 1e3, 1e-8, 1e8, 5e-11, 3e11, 1e-12, 1e12])).collect();
+            cfg.target = crate::density::Target::DiagNormal { mu: vec![0.0; d], sigma: sig.clone() };
+            cfg.init = (0..d).map(|i| sig[i] * r.uniform(-1.0, 1.0)).collect();
+        }
+        TrajScenario { cfg }
+    });
+    ctx.finish("exploration", components_engine_a_math(), vec![
+        "near-ties (a trajectory evaluation at a position bit-identical to the start) are skipped for the index-0 rule and counted".into(),
+        "the per-leapfrog U-turn audit of sub-trajectories (needs a Collector hook) is not built; stopping is judged by the depth/steps bounds only".into(),
+    ], json!({}))
+}
+
+fn c05(tier: Tier, seed: u64) -> i32 {
+    let mut ctx = Ctx::new("C05", tier, seed);
+    let n = ctx.n(64, 6000);
+    let opts = SwarmOpts { allow_tune0: false, max_tune: 12, max_draws: 6, max_dim: 4, allow_hard_targets: false, ..Default::default() };
+    ctx.run_batch("enumerate_positions", "per base run (all six presets, num_tune<=12, num_draws<=6, dimension<=4): EVERY density evaluation index (all if <=500, else all of set_position + even stride) x EVERY fault kind (recoverable/unrecoverable error, NaN/+inf/-inf value, NaN/inf gradient component, energy jump) is injected in turn, plus 40 seeded fault pairs (second fault 1..20 evaluations later); phase labels (set_position / trajectory leapfrog / search base / search trial) come from a fault-free dry run of the same seed; non-trivial = a fault fired", n, |rs, _| {
+        let mut cfg = gen_chain_cfg(rs, &opts);
+        // keep trajectories short so that every position can be enumerated
+        match &mut cfg.preset {
+            crate::chain::Preset::DiagNuts(s) => s.maxdepth = s.maxdepth.min(4),
+            crate::chain::Preset::LowRankNuts(s) => s.maxdepth = s.maxdepth.min(4),
+            crate::chain::Preset::FlowNuts(s) => s.maxdepth = s.maxdepth.min(4),
+            _ => {}
+        }
+        let mut r = Prng::sub(rs, "tweak");
+        FaultScenario { cfg, enumerate: true, max_positions: 500, pairs: 40, pair_seed: r.next_u64() }
+    });
+    let n2 = ctx.n(3000, 300_000);
+    let opts2 = SwarmOpts { allow_tune0: true, max_tune: 60, max_draws: 20, max_dim: 8, ..Default::default() };
+    ctx.run_batch("sampled_positions", "longer runs and harder targets (funnel, banana, heavy tails): 1..3 faults at seeded evaluation indices", n2, |rs, _| {
+        let mut cfg = gen_chain_cfg(rs, &opts2);
+        let mut r = Prng::sub(rs, "tweak");
+        for _ in 0..r.range(1, 3) {
+            cfg.faults.push(crate::density::Fault { at: r.below(1500), kind: *r.pick(&crate::density::FaultKind::ALL) });
+        }
+        FaultScenario { cfg, enumerate: false, max_positions: 0, pairs: 0, pair_seed: 0 }
+    });
+    ctx.finish("fault_enumeration", components_engine_a_math(), vec![
+        "base runs are sampled; positions within a base run are enumerated".into(),
+        "a recoverable-class fault during set_position may make it return Ok or Err (both accepted), never panic".into(),
+        "MCLMC with dynamic step size may retry instead of diverging".into(),
     ], json!({}))
 }
